@@ -31,6 +31,7 @@ import P2P.Model.Rigid
 import P2P.Proofs.RigidLemmas
 import P2P.Props.C04
 import P2P.Proofs.RepairFitTable
+import P2P.Proofs.TetraLemmas
 
 namespace P2P.Props.C05
 open P2P P2P.Geom P2P.Rigid P2P.Topology P2P.Proofs.Geom P2P.Proofs.Rigid P2P.Proofs.RigidTable
@@ -101,6 +102,21 @@ theorem hydrogen_stays_attached (base : ResDef) (hb : base ∈ bases) (ns cs : L
   refine ⟨r, hr, ?_⟩
   intro a b c e hd hp r2d small pos angle haxis
   exact (P2P.Props.C04.torsion_change_is_rigid r (fullAtoms r) _ _ hfull a b c e hd hp r2d small pos angle haxis).2
+
+/-- **The third hydrogen of an XH3 group never lands on an existing one** (`rebuild_tetrahedral`
+with two hydrogens present, as repaired): for ALL positions of the two existing hydrogens — ideal or
+not — the position taken is one of the two candidates (the first hydrogen turned by 120 and by 240
+degrees about the bond), the candidates and the first hydrogen form an equilateral triangle, the new
+hydrogen is exactly one side away from the first hydrogen and at least HALF a side away from the
+second (`side² ≤ 4 |new − h1|²`; the side is 1.63 Å for a methyl group, so at least 0.81 Å). Before
+the repair the first candidate was taken unless the second hydrogen was within 0.1 Å of it: an input
+hydrogen 8 degrees off its slot then got the new one 0.13 Å away (fixed: 4b2b694). -/
+theorem third_hydrogen_clear (next bond h0 h1 : V3 ℝ) (h : d2 bond next ≠ 0) :
+    d2 (cand1 next bond h0) h0 = d2 (cand2 next bond h0) (cand1 next bond h0) ∧
+    d2 (cand2 next bond h0) h0 = d2 (cand1 next bond h0) h0 ∧
+    (thirdHydrogen next bond h0 h1 = cand1 next bond h0 ∨ thirdHydrogen next bond h0 h1 = cand2 next bond h0) ∧
+    d2 (cand1 next bond h0) h0 ≤ 4 * d2 (thirdHydrogen next bond h0 h1) h1 :=
+  third_hydrogen_clear_core next bond h0 h1 h
 
 /-! ### rebuilt heavy atoms: which atoms `repair_heavy` fits on (Model/RepairFit.lean) -/
 
